@@ -5,6 +5,24 @@ From CTM Require Import Base.Sx Model.IntDtype Model.GeneId Proofs.IntDtypeP Pro
 Import ListNotations.
 Open Scope Z_scope.
 
+(* choose_int_dtype below compares the rounded bounds with iinfo.min / iinfo.max EXACTLY.  That
+   is what the code does when the bounds are integers; for bounds held in float32 / float64
+   numpy first converts iinfo.max to that float type (choose_int_dtype_f, tied to the code on
+   every run).  The two coincide except at the float boundaries -- c16_dtype_float_faithful --
+   where the code picks a type that cannot hold the bound -- c16_dtype_float_boundary_refuted,
+   the witness of finding F5. *)
+Theorem c16_dtype_float_faithful : forall mant lo hi,
+  (mant = 0 \/ forall c, In c candidates -> 2 ^ mant <= snd c -> round_half_even hi <> snd c + 1) ->
+  choose_int_dtype_f mant lo hi = choose_int_dtype lo hi.
+Proof. exact choose_f_agrees. Qed.
+Print Assumptions c16_dtype_float_faithful.
+
+Theorem c16_dtype_float_boundary_refuted :
+  exists mant lo hi k, choose_int_dtype_f mant lo hi = Some k /\
+     ~ (round_half_even hi <= snd (range_of k)).
+Proof. exact choose_f_refuted. Qed.
+Print Assumptions c16_dtype_float_boundary_refuted.
+
 (* the integer type chosen contains the rounded bounds and is the first candidate that does *)
 Theorem c16_dtype_wide_enough : forall lo hi k,
   choose_int_dtype lo hi = Some k ->
